@@ -35,8 +35,21 @@ CORPUS = [
     "bin T 2 0 1 3 0 0 0 1 1 0 2 1 1 0 T 1 2 3 0 2 0 2 2 1 2 2 3 1 3 PL 0 PR 0",
 ]
 
+def wide_pair(rng):
+    """rules of arity around the word sizes (31-34, 63-65): A's rule has the leaf states of `a` or `b` at every position, B's rule demands the same leaves (or, in 40 % of the pairs, another leaf at one position); the product must pair the children position by position, whatever the position"""
+    w = rng.choice([31, 32, 33, 34, 63, 64, 65]); sym = 200 + w
+    cha = [rng.choice([1, 3]) for _ in range(w)]
+    chb = [5 if c == 1 else 6 for c in cha]      # every state has exactly one tree: the judge's subset constructions stay linear
+    if rng.random() < 0.4:                       # one position that does not fit: the intersection is empty
+        i = rng.choice([0, w - 1, w - 1, min(w - 1, 32), rng.randrange(w)]); chb[i] = 6 if cha[i] == 1 else 5
+    a = gen.TA([0], [(0, 1, ()), (1, 3, ()), (sym, 0, tuple(cha))])
+    b = gen.TA([4], [(0, 5, ()), (1, 6, ()), (sym, 4, tuple(chb))])
+    if rng.random() < 0.3: b = b.rename({q: q + 100 for q in b.states()})
+    return (a, b) if rng.random() < 0.7 else (b, a)
+
 def targeted(rng):
     out = []
+    for _ in range(40): out.append(line(*wide_pair(rng)))
     for _ in range(300):   # disjoint numbering (UnionDisjointStates applies), sparse
         a = gen.rand_ta_sized(rng, 3, 7); b = gen.rand_ta_sized(rng, 3, 7)
         off = rng.choice([10, 100, 4])
